@@ -12,10 +12,10 @@ using namespace vf;
 
 namespace {
 
-struct Prog { int route; int nconn; int tsize; int udp; int close_order; int lat; int reuse; /* 1: the first connection's two socket objects are closed and used for another connection */ int late = 0; /* 1: the traffic starts 50 ms before virtual time crosses the next multiple of 2^32 microseconds */ int v6side = 0; /* 1: both nodes also have an IPv6 address and exchange a UDP datagram each way and a TCP transfer over it: none of that belongs in the (IPv4) capture, all of it must still work */ };
+struct Prog { int route; int nconn; int tsize; int udp; int close_order; int lat; int reuse; /* 1: the first connection's two socket objects are closed and used for another connection */ int late = 0; /* 1: the traffic starts 50 ms before virtual time crosses the next multiple of 2^32 microseconds */ int v6side = 0; /* 1: both nodes also have an IPv6 address and exchange a UDP datagram each way and a TCP transfer over it: none of that belongs in the (IPv4) capture, all of it must still work */ int nat = 0; /* 1: node A sits behind a NAT: the records still carry the true addresses of both ends */ };
 // route: 0 loss-free, 1 lossy (tail-drop queue); tsize index; udp: 0 none, 1 small both ways, 2 mixed sizes incl. 65507; lat: 0 1ms, 1 700ms (timestamps cross seconds)
 int const TSIZES[] = { 1, 3000, 20000 };
-std::string prog_str(Prog const& p) { return fmt("route=%s conns=%d tcp-bytes=%d udp=%d close-order=%d latency=%s%s", p.route ? "lossy" : "loss-free", p.nconn, TSIZES[p.tsize], p.udp, p.close_order, p.lat ? "700ms" : "1ms", p.reuse ? " +socket-reuse" : "") + (p.late ? " +starting 50ms before a multiple of 2^32 us of virtual time" : "") + (p.v6side ? " +IPv6 traffic alongside" : ""); }
+std::string prog_str(Prog const& p) { return fmt("route=%s conns=%d tcp-bytes=%d udp=%d close-order=%d latency=%s%s", p.route ? "lossy" : "loss-free", p.nconn, TSIZES[p.tsize], p.udp, p.close_order, p.lat ? "700ms" : "1ms", p.reuse ? " +socket-reuse" : "") + (p.late ? " +starting 50ms before a multiple of 2^32 us of virtual time" : "") + (p.v6side ? " +IPv6 traffic alongside" : "") + (p.nat ? " +node A behind a NAT" : ""); }
 
 struct Expect { int64_t t; bool tcp; std::string src, dst; int sport, dport; std::string payload; bool eof; bool new_connection = false; /* marker: a SYN from client port sport was seen: sequence numbers of that connection start over */ };
 
@@ -39,7 +39,7 @@ Res run_prog(Prog const& p, std::string const& file)
 		w.on_build = [&](World& ww, sim::simulation&) {
 			auto q = p.route ? ww.queue(300000, p.lat ? ms(700) : ms(1), 5000) : ww.queue(0, p.lat ? ms(700) : ms(1), 0);
 			ww.chan = [q](ip::address, ip::address) { return World::hops_t{ q }; };
-			ww.out[addr("10.0.0.1")] = World::hops_t{ ww.probe(1, size_t(-1)) };
+			ww.out[addr("10.0.0.1")] = p.nat ? World::hops_t{ ww.probe(1, size_t(-1)), std::make_shared<sim::nat>(addr("99.0.0.1")) } : World::hops_t{ ww.probe(1, size_t(-1)) };
 			ww.out[addr("10.0.1.1")] = World::hops_t{ ww.probe(2, size_t(-1)) };
 		};
 		sim::simulation sim(w);
@@ -139,12 +139,13 @@ Res run_prog(Prog const& p, std::string const& file)
 		std::map<std::string, int> seen_seq;
 		for (auto& r : w.log) {
 			++R.transitions;
-			if (r.type == sim::aux::packet::type_t::syn) { Expect m; m.t = r.t; m.tcp = true; m.eof = false; m.new_connection = true; size_t c0 = r.from.rfind(':'); m.src = r.from.substr(0, c0); m.sport = std::atoi(r.from.c_str() + c0 + 1); m.dport = m.sport + 2000; expect.push_back(m); continue; }
+			if (r.type == sim::aux::packet::type_t::syn) { Expect m; m.t = r.t; m.tcp = true; m.eof = false; m.new_connection = true; size_t c0 = r.from.rfind(':'); m.src = r.from.substr(0, c0); if (m.src == "99.0.0.1") m.src = "10.0.0.1"; m.sport = std::atoi(r.from.c_str() + c0 + 1); m.dport = m.sport + 2000; expect.push_back(m); continue; }
 			bool udp = r.overhead == 28 && r.type == sim::aux::packet::type_t::payload;
 			bool tcpd = r.overhead == 40 && (r.type == sim::aux::packet::type_t::payload || r.type == sim::aux::packet::type_t::error);
 			if (!udp && !tcpd) continue;
 			Expect e; e.t = r.t; e.tcp = tcpd; e.payload = r.bytes; e.eof = r.type == sim::aux::packet::type_t::error;
 			size_t c = r.from.rfind(':'); e.src = r.from.substr(0, c); e.sport = std::atoi(r.from.c_str() + c + 1);
+			if (e.src == "99.0.0.1") e.src = "10.0.0.1"; // a retransmitted segment carries the source its first pass through the NAT left in it; the true source is node A
 			if (tcpd) { if (e.sport >= 6000) { e.dst = "10.0.0.1"; e.dport = e.sport - 2000; } else { e.dst = "10.0.1.1"; e.dport = e.sport + 2000; }
 				std::string key = r.from + "#" + std::to_string(r.seq); if (seen_seq[key]++) ++R.retrans; }
 			else { if (e.sport == 4500) { e.dst = "10.0.1.1"; e.dport = 5500; } else { e.dst = "10.0.0.1"; e.dport = 4500; } }
@@ -211,7 +212,7 @@ struct PcapEngine : Engine
 	uint64_t units(Args const& a) override
 	{
 		progs.clear();
-		for (int r = 0; r < 2; ++r) for (int n = 1; n <= (a.thorough() ? 3 : 2); ++n) for (int t = 0; t < 3; ++t) for (int u = 0; u < 3; ++u) for (int co = 0; co < 2; ++co) for (int l = 0; l < 2; ++l) for (int ru = 0; ru < 2; ++ru) for (int late = 0; late < 2; ++late) for (int v6 = 0; v6 < 2; ++v6) { if (v6 && (late || ru)) continue; progs.push_back(Prog{ r, n, t, u, co, l, ru, late, v6 }); }
+		for (int r = 0; r < 2; ++r) for (int n = 1; n <= (a.thorough() ? 3 : 2); ++n) for (int t = 0; t < 3; ++t) for (int u = 0; u < 3; ++u) for (int co = 0; co < 2; ++co) for (int l = 0; l < 2; ++l) for (int ru = 0; ru < 2; ++ru) for (int late = 0; late < 2; ++late) for (int v6 = 0; v6 < 2; ++v6) { if (v6 && (late || ru)) continue; progs.push_back(Prog{ r, n, t, u, co, l, ru, late, v6 }); if (!v6 && !late && !ru) { Prog q{ r, n, t, u, co, l, ru, late, v6 }; q.nat = 1; progs.push_back(q); } }
 		return progs.size();
 	}
 	void run_unit(uint64_t u, Ctx& ctx) override
